@@ -28,6 +28,7 @@ type Exploration struct {
 	DepthDone   int
 	PerDepth    []int // new states per depth
 	Exhaustive  bool
+	Fixpoint    bool           // no unexplored state is left: the frontier ran empty before the depth bound
 	Orders      float64        // event orders represented (paths of the explored graph up to DepthDone)
 	Outcomes    map[string]int // "<event class> -> <outcome>" : transitions
 	Found       map[string]*Found
@@ -176,6 +177,7 @@ func Explore(env *Env, cfg *Config, deadline time.Time) *Exploration {
 	if cfg.Depth == 0 && len(frontier) > 0 {
 		ex.Exhaustive = false
 	}
+	ex.Fixpoint = ex.Exhaustive && len(frontier) == 0
 	// event orders represented by the explored graph
 	ways := map[string]float64{root.Key: 1}
 	ex.Orders = 0
